@@ -7,15 +7,21 @@ MANIFEST = {
     "technique": "Lean 4 theorems over a hand model of BaseBuilder (node list with cursor, cached section links, instruction capture, "
                  "serialize_to) refined to a gap-buffer specification, for all operation histories; C++/Lean correspondence on node-list "
                  "dumps and recorded serialize_to calls; byte differential Builder/Compiler vs Assembler judged by the Lean monitor",
-    "text": "Lean proves for every history of emitter calls and node-list edits: the Builder model (cursor node, recursive list surgery, "
-            "cached _next_section links with dirty flag) refines the gap-buffer document of Spec/Builder.lean (refinement + invariants: "
-            "no node twice, cursor linked, link cache coherent); a node replays exactly the call that created it for 0..6 operands, every "
-            "option word, extra register and comment; without section switches serialize(build cs) = section 0 :: cs, with section "
-            "switches every section receives exactly its projection of cs; serialize_to stops at the first rejected call with that error. "
-            "The model is tied to /repo by running the real x86/x64/a64 Builder and Compiler on the same lines (node list dumped forward and "
-            "backward after every op, serialize_to recorded through a BaseEmitter subclass) and the final CodeHolder (section bytes, labels, "
-            "relocations, error) is compared with a direct Assembler run on the original sequence (no edits) or on the specification's "
-            "linearisation (edits); the Lean monitor judges every program.",
+    "text": "Lean proves for every history of emitter calls and node-list edits (add_node, add_after, add_before, remove_node, remove_nodes, "
+            "set_cursor, section): the Builder model (cursor node, recursive list surgery, cached _next_section links with dirty flag and "
+            "update_section_links) refines the gap-buffer document of Spec/Builder.lean and keeps its representation invariant (no node twice, "
+            "cursor linked, link cache coherent unless dirty), hence what serialize_to walks is the specification's linearisation of the edited "
+            "document (edit_semantics); an instruction node replays exactly the call that created it for 0..6 operands, every option word, extra "
+            "register and comment (only operands behind op_count are normalised); serialize_to against any destination issues all calls, or "
+            "stops at the first rejected call with that call's error and the destination state of that call; an edit-free sequence of "
+            "unconditionally accepted calls serialises to itself (serialize_replays_partial). The model is tied to /repo by "
+            "running the real x86/x64/a64 Builder and Compiler on the same lines (node list dumped forward and backward after every op, "
+            "serialize_to recorded through a BaseEmitter subclass), and the final CodeHolder (section bytes, labels, relocations, error) is "
+            "compared with a direct Assembler run on the original call sequence (programs without edits) and on the specification's "
+            "linearisation (all programs); the Lean monitor judges every program. Not proved, only tested by that differential: that the "
+            "linearisation of an edit-free program with label/section/typed-data calls is the call sequence itself / its per-section projection "
+            "under section re-entry, and the "
+            "byte equality itself.",
     "note": "Trusted: Lean kernel; Spec/Builder.lean as the meaning of 'edited sequence'; harness/driver/diff. Not modelled: the assembler "
             "itself (C01-C03), ConstPool layout (C19), passes of the Compiler (the RA pass runs on an empty function list), prev/next pointers "
             "(abstracted to a list; tied by the forward/backward dumps), data type ids 44..199. Byte equality is differential (tested), the "
